@@ -1,12 +1,27 @@
 (* C15 — constructors accept valid geometry and reject invalid geometry.
    Oracle: Model/Simple.v (simple_bf: exact decision of simplicity; proper_cross_bf: a transversal
-   crossing of two non-adjacent edges).  Partial: Bentley-Ottmann and qhull are oracles whose verdicts
+   crossing of two non-adjacent edges).  The two geometric predicates simple_bf is built from are PROVED to be the
+   definitions: seg_meet <-> the closed segments share a point; fold_back <-> consecutive edges share a point other than
+   their common vertex.  Partial: Bentley-Ottmann and qhull are oracles whose verdicts
    are compared with the exact classification on margin-separated inputs; the angular re-ordering of
    ConvexPolygon is checked per instance (every consecutive turn positive about the normal). *)
 From Coq Require Import Reals QArith String List Bool.
 Require Import Cox.Num.Ops Cox.Num.Transfer Cox.Geo.Vec Cox.Model.Simple Cox.Gen.Effects Cox.Model.Setters
-  Cox.Thm.SimpleThm Cox.Thm.SimpleTransfer.
+  Cox.Thm.SimpleThm Cox.Thm.SimpleTransfer Cox.Thm.SegMeet.
 Import ListNotations.
+
+(* THE ORACLE IS THE DEFINITION.  simple_bf requires, for every pair of edges of the cycle: non-adjacent edges must not
+   satisfy seg_meet, adjacent edges must not satisfy fold_back.  Both tests are exactly the geometric notions - for ALL real
+   coordinates, degenerate (collinear, zero-length, touching) configurations included: *)
+Theorem C15_seg_meet_is_intersection :
+  forall a b c d : vec2 R, seg_meet Rops a b c d = true <-> exists p, on_seg a b p /\ on_seg c d p.
+Proof. exact seg_meet_spec. Qed.
+Print Assumptions C15_seg_meet_is_intersection.
+
+Theorem C15_fold_back_is_overlap :
+  forall a b c : vec2 R, fold_back Rops a b c = true <-> exists p, ~ same_pt p b /\ on_seg a b p /\ on_seg b c p.
+Proof. exact fold_back_spec. Qed.
+Print Assumptions C15_fold_back_is_overlap.
 
 (* soundness of the "clearly invalid" class: a proper crossing is a genuine common point of the
    two open edges, so the cycle is not simple *)
